@@ -33,15 +33,25 @@ def dataframe_to_symbols(table: 'pandas.DataFrame') -> List[Symbol]:  # noqa: F8
     """
 
     def convert_to_int_or_none(field: Any) -> Optional[int]:
-        """Convert NaNs to `None`; `int` otherwise."""
-        if np.isnan(field):
+        """Convert NaNs (and `None`) to `None`; `int` otherwise."""
+        if field is None or np.isnan(field):
             return None
         return int(field)
+
+    def convert_to_str_or_none(field: Any) -> Optional[str]:
+        """Convert missing values (`None`, NaN) to `None`; leave strings unchanged."""
+        if isinstance(field, str):
+            return field
+        return None
 
     symbols = []
 
     for _, row in table.iterrows():
         entry = dict(row)
+
+        entry['name'] = convert_to_str_or_none(entry['name'])
+        entry['equation'] = convert_to_str_or_none(entry['equation'])
+        entry['code'] = convert_to_str_or_none(entry['code'])
 
         entry['type'] = Type(entry['type'])  # Convert to `enum`erated variable type
         entry['lags'] = convert_to_int_or_none(entry['lags'])
